@@ -191,6 +191,16 @@ def gen_cases(tier: str, seed: int) -> List[Dict]:
         add("subst-poly", poly=p, args=[sub], kwargs={}, mode="direct")
         sub2 = poly("b", ("q2",), (2,), 2, 2)
         add("subst-newvar", poly=p, args=[None, sub2], kwargs={}, mode="direct")
+    # renaming by a permutation that is not its own inverse (3-cycles need three indeterminates)
+    def var(nm):
+        return {"kind": "poly", "names": [nm], "exps": [[1]], "shape": [], "slots": [[1]], "mode": "raw"}
+
+    for psh in [(), (2,)]:
+        p3 = poly("a", ("q0", "q1", "q2"), psh, 3, 3)
+        add("cycle", poly=p3, args=[var("q1"), var("q2"), var("q0")], kwargs={}, mode="direct")
+        add("cycle", poly=p3, args=[], kwargs={"q0": var("q2"), "q1": var("q0"), "q2": var("q1")}, mode="direct")
+        add("cycle", poly=p3, args=[var("q2"), None, var("q1")], kwargs={}, mode="direct")
+        add("cycle", poly=p3, args=[var("q1")], kwargs={"q2": var("q0"), "q1": var("q2")}, mode="direct")
     # numeric and polynomial arguments mixed in one call (simultaneous substitution): the polynomial argument may mention
     # an indeterminate that is itself given a number
     for psh in [(), (2,)]:
